@@ -399,6 +399,11 @@ void RoughLegalizationParameters::check() const {
         "Rough legalization target blending should generally be between 0 and "
         "0.5");
   }
+  if (sideMargin < 0.0 || sideMargin > 100.0) {
+    throw std::runtime_error(
+        "Rough legalization side margin should be non-negative and small "
+        "(a few standard cell heights)");
+  }
 }
 
 void GlobalPlacerParameters::check() const {
